@@ -184,3 +184,172 @@ Proof.
     unfold set_option. cbn [get_option]. rewrite C2. cbn [bind]. rewrite Hm, Ha. cbn [bind].
     rewrite Hlong, Ho. reflexivity.
 Qed.
+
+(* ================= the format of the built-in help command ================= *)
+Definition COMMAND : str := [99;111;109;109;97;110;100]%N.   (* command *)
+(* add_argument("command", Argument.OPTIONAL | Argument.MULTI_VALUED): multi-valued, optional, a string *)
+Definition is_command_arg (a : arg) : bool :=
+  str_eqb (a_name a) COMMAND && a_multi a && negb (a_required a) && a_optional a &&
+  match a_type a with TStr => true | _ => false end.
+Definition help_cname : cname := {| cn_name := S_help; cn_aliases := [] |}.
+
+Lemma add_elements_app l1 : forall f l2,
+  add_elements f (l1 ++ l2) = (do f1 <- add_elements f l1; add_elements f1 l2).
+Proof.
+  induction l1 as [|e r IH]; intros f l2; [reflexivity|]. cbn [app]. rewrite !add_elements_cons.
+  destruct (add_elem f e); cbn [bind]; [apply IH|reflexivity].
+Qed.
+Lemma add_opts_same os : forall f f', add_elements f (map EOpt os) = Ok f' ->
+  f_args f' = f_args f /\ f_cnames f' = f_cnames f /\ f_base f' = f_base f.
+Proof.
+  induction os as [|o r IH]; intros f f' H; [cbn in H; inversion H; auto|].
+  cbn [map] in H. rewrite add_elements_cons in H. destruct (add_elem f (EOpt o)) as [f1|k] eqn:E; cbn [bind] in H; [|discriminate].
+  destruct (IH _ _ H) as (-> & -> & ->). cbn [add_elem] in E. unfold add_option in E.
+  destruct (opt_name_taken f (o_long o)); [discriminate|]. destruct (optname_taken f (o_short o)); [discriminate|].
+  destruct f. inversion E; subst. cbn. auto.
+Qed.
+
+Lemma opts_valid os : forallb element_valid (map EOpt os) = true.
+Proof. induction os; [reflexivity|exact IHos]. Qed.
+
+Section HelpFormat.
+  Variables (gopts opts : list opt) (a : arg) (g f : fmt).
+  Hypothesis Hg : format_of_elements (map EArg [] ++ map EOpt gopts) None = Ok g.
+  Hypothesis Hf : format_of_elements (cmd_elements S_help [] false opts [a]) (Some g) = Ok f.
+  Hypothesis Ha : is_command_arg a = true.
+
+  Lemma command_arg_spec : a_name a = COMMAND /\ a_multi a = true /\ a_required a = false /\ a_optional a = true /\ a_type a = TStr.
+  Proof.
+    unfold is_command_arg in Ha. apply andb_prop in Ha as [H H5]. apply andb_prop in H as [H H4].
+    apply andb_prop in H as [H H3]. apply andb_prop in H as [H1 H2].
+    destruct (str_eqb_spec (a_name a) COMMAND); [|discriminate]. destruct (a_required a); [discriminate|].
+    destruct (a_type a); try discriminate. auto.
+  Qed.
+
+  Lemma global_inv : fmt_inv g /\ short_sound g.
+  Proof.
+    split.
+    - apply (format_of_elements_fmt_ok_lemma _ None g I) in Hg; [apply Hg|].
+      cbn [map app]. apply opts_valid.
+    - eapply format_of_elements_short_sound; [|exact Hg]. exact I.
+  Qed.
+  Lemma global_shape : get_arguments_all g = [] /\ get_command_names_all g = [].
+  Proof.
+    revert Hg. unfold format_of_elements. cbn [map app].
+    destruct (add_elements (empty_builder None) (map EOpt gopts)) as [b|k] eqn:E; cbn [bind]; [|discriminate].
+    intros H. inversion H; subst g. clear H. destruct (add_opts_same _ _ _ E) as (H1 & H2 & H3). cbn in H1, H2, H3.
+    destruct (build_format_same b) as (B1 & B2 & B3 & _). destruct (build_format b) as [b0 cn co cs ar os oss hm ho].
+    cbn [f_base f_cnames f_args] in *. subst. rewrite H3. cbn. rewrite H1, H2. auto.
+  Qed.
+  Lemma help_inv : fmt_inv f /\ short_sound f.
+  Proof.
+    destruct global_inv as [G1 G2]. destruct command_arg_spec as (_ & _ & A3 & A4 & _). split.
+    - apply (format_of_elements_fmt_ok_lemma _ (Some g) f G1) in Hf; [apply Hf|].
+      unfold cmd_elements. cbn [app map forallb element_valid]. rewrite forallb_app. cbn [forallb element_valid].
+      unfold arg_valid. rewrite A3, A4. cbn. rewrite andb_true_r. apply opts_valid.
+    - eapply format_of_elements_short_sound; [|exact Hf]. exact G2.
+  Qed.
+  Lemma help_shape : get_arguments_all f = [(a_name a, a)] /\ get_command_names_all f = [help_cname].
+  Proof.
+    destruct global_shape as [G1 G2]. revert Hf. unfold format_of_elements, cmd_elements. cbn [app map].
+    rewrite add_elements_cons. cbn [add_elem add_command_name empty_builder bind]. rewrite add_elements_app.
+    match goal with |- context [add_elements ?b0 (map EOpt opts)] =>
+      destruct (add_elements b0 (map EOpt opts)) as [b1|k] eqn:E1; cbn [bind]; [|discriminate] end.
+    destruct (add_opts_same _ _ _ E1) as (H1 & H2 & H3). cbn in H1, H2, H3.
+    rewrite add_elements_cons. cbn [add_elem add_elements].
+    destruct (add_argument b1 a) as [b2|k] eqn:E2; cbn [bind]; [|discriminate].
+    intros H. inversion H; subst f. clear H.
+    unfold add_argument in E2.
+    repeat match type of E2 with (if ?c then _ else _) = _ => destruct c; [discriminate|] end.
+    destruct b1 as [bb cn co cs ar os oss hm ho]. cbn [f_args f_cnames f_base] in H1, H2, H3. subst.
+    inversion E2; subst b2. clear E2. unfold build_format. destruct (index_copts (map snd co)) as [co' cs'].
+    cbn [get_arguments_all get_command_names_all]. rewrite G1, G2. split; reflexivity.
+  Qed.
+End HelpFormat.
+
+(* ================= the two parses with the help command's format, by parse_spells ================= *)
+Lemma pos_render path : flat_map render_item (map IPos path) = path.
+Proof. induction path as [|t r IH]; [reflexivity|]. cbn [map flat_map render_item app]. now rewrite IH. Qed.
+Lemma pos_values path : flat_map item_pos (map IPos path) = path.
+Proof. induction path as [|t r IH]; [reflexivity|]. cbn [map flat_map item_pos app]. now rewrite IH. Qed.
+Lemma pos_events path : flat_map item_events (map IPos path) = [].
+Proof. induction path as [|t r IH]; [reflexivity|]. cbn [map flat_map item_events app]. exact IH. Qed.
+Lemma pos_items_ok f F path : forallb lead_ok path = true -> items_ok f F (map IPos path) = true.
+Proof.
+  induction path as [|t r IH]; intros H; [reflexivity|]. cbn [forallb] in H. apply andb_prop in H as [Ht Hr].
+  cbn [map items_ok item_ok looks_ahead]. rewrite (IH Hr). unfold lead_ok in Ht. unfold pos_tok.
+  destruct (starts_dash t); [now rewrite andb_false_r in Ht|reflexivity].
+Qed.
+Lemma string_text_ok nl s : res_ok (parse_typed TStr nl (VStr s)) = true.
+Proof. unfold parse_typed, parse_string. destruct (nl && is_null (VStr s)); reflexivity. Qed.
+
+Definition plain_line (names path : list str) : ld := {| ld_names := names; ld_items := map IPos path; ld_tail := None |}.
+Lemma plain_line_render names path : render (plain_line names path) = names ++ path.
+Proof. unfold render, plain_line. cbn [ld_names ld_items ld_tail render_tail]. now rewrite pos_render, app_nil_r. Qed.
+
+Section HelpParse.
+  Variables (f : fmt) (a : arg).
+  Hypothesis Hinv : fmt_inv f.
+  Hypothesis Hargs : get_arguments_all f = [(a_name a, a)].
+  Hypothesis Hcns : get_command_names_all f = [help_cname].
+  Hypothesis Hmulti : a_multi a = true.
+  Hypothesis Hreq : a_required a = false.
+  Hypothesis Htype : a_type a = TStr.
+
+  Lemma aug_shape : exists F ars n, aug_format f = Ok (F, ars, [(n, help_cname)]).
+  Proof.
+    pose proof (wf_implies_fmt_ok_lemma f Hinv) as Hok. unfold fmt_ok in Hok.
+    destruct (aug_format f) as [[[F ars] cns]|k] eqn:E; [|discriminate]. clear Hok.
+    unfold aug_format in E. rewrite Hcns in E. cbv zeta in E. cbn [pseudo_args map fst snd] in E.
+    match type of E with (do f' <- ?x; _) = _ => destruct x as [F'|k]; cbn [bind] in E; [|discriminate] end.
+    inversion E; subst. eauto.
+  Qed.
+
+  Variable path : list str.
+  Hypothesis Hplain : forallb lead_ok path = true.
+  Hypothesis Hne : path <> [].
+
+  Lemma fits_path : fits (get_arguments_all f) path = true /\ req_ok (get_arguments_all f) path = true.
+  Proof.
+    rewrite Hargs. destruct path as [|t r]; [congruence|]. cbn [fits req_ok]. rewrite Hmulti, Htype. split; [|reflexivity].
+    cbn [andb]. apply forallb_forall. intros s _. apply string_text_ok.
+  Qed.
+
+  (* "help <path>": the name spelled, the path as values *)
+  Lemma wf_help_line : wf_line f (plain_line [S_help] path) = true.
+  Proof.
+    destruct aug_shape as (F & ars & n & E). destruct fits_path as [F1 F2]. unfold wf_line. rewrite E.
+    unfold plain_line, values. cbn [ld_names ld_items ld_tail]. rewrite pos_values, app_nil_r, F1, F2, (pos_items_ok _ _ _ Hplain).
+    reflexivity.
+  Qed.
+  (* "<path>": the name omitted; the first value is not the name *)
+  Lemma wf_path_line : (match path with t :: _ => str_eqb t S_help = false | [] => True end) ->
+    wf_line f (plain_line [] path) = true.
+  Proof.
+    intros Hh. destruct aug_shape as (F & ars & n & E). destruct fits_path as [F1 F2]. unfold wf_line. rewrite E.
+    unfold plain_line, values. cbn [ld_names ld_items ld_tail]. rewrite pos_values, app_nil_r, F1, F2, (pos_items_ok _ _ _ Hplain).
+    destruct path as [|t r]; [congruence|]. cbn [names_ok no_clash length skipn snd andb]. unfold cname_match, help_cname.
+    cbn [cn_name cn_aliases existsb]. rewrite str_eqb_sym, Hh. now rewrite andb_false_r.
+  Qed.
+
+  Definition help_args : list (str * pyval) := place_typed (get_arguments_all f) path.
+  Lemma help_args_set : shas (a_name a) help_args = true.
+  Proof.
+    unfold help_args. rewrite Hargs. destruct path as [|t r]; [congruence|]. cbn [place_typed]. rewrite Hmulti.
+    unfold shas, ahas. cbn [aget]. now rewrite str_eqb_refl.
+  Qed.
+
+  Lemma parse_help_line len : parse f len (S_help :: path) = Ok {| ar_opts := []; ar_args := help_args |}.
+  Proof.
+    change (S_help :: path) with ([S_help] ++ path). rewrite <- plain_line_render.
+    rewrite (parse_spells_inv_lemma f _ Hinv wf_help_line len). unfold denote, events, values, plain_line.
+    cbn [ld_names ld_items ld_tail]. now rewrite pos_events, pos_values, app_nil_r.
+  Qed.
+  Lemma parse_path_line len : (match path with t :: _ => str_eqb t S_help = false | [] => True end) ->
+    parse f len path = Ok {| ar_opts := []; ar_args := help_args |}.
+  Proof.
+    intros Hh. change path with ([] ++ path) at 1. rewrite <- plain_line_render.
+    rewrite (parse_spells_inv_lemma f _ Hinv (wf_path_line Hh) len). unfold denote, events, values, plain_line.
+    cbn [ld_names ld_items ld_tail]. now rewrite pos_events, pos_values, app_nil_r.
+  Qed.
+End HelpParse.
